@@ -83,9 +83,26 @@ def run(chk):
     chk.saw(CR, q)
     Ts = {}
     unselected = []
+    def module_matrix(term):
+        """(value, name) of a module-level constant a term names (matrices hoisted out of the function), else (term, None)."""
+        a_ = term.as_atom() if term is not None else None
+        if a_ and a_[0] == "name" and a_[1] in cr.ctx.consts:
+            return Ev([], cr.ctx).ev(cr.ctx.consts[a_[1]]), a_[1]
+        return term, None
+    shared_written = []
     for e in ev.events:
         if e.kind == "assign" and e.name == "T":
-            m = const_matrix(e.value)
+            val, shared = module_matrix(e.value)
+            # a local bound to a module-level array and then updated in place (T /= 3) changes the module's array: the next call starts from it
+            for la in find_atoms(val, lambda t: t[0] == "local" and t[1] == "T"):
+                prev, pshared = module_matrix(ev.defs.get(la))
+                if prev is not None:
+                    val = val.subs({la: prev})
+                    if pshared and isinstance(e.node, ast.AugAssign):
+                        shared_written.append((e, pshared))
+            m = const_matrix(val)
+            if m is None and isinstance(e.node, ast.AugAssign):
+                continue
             chk.need(m is not None, f"{q}: basis-change matrix is not a constant 3x3 literal: {e.value}")
             when_R = None
             for c, pol in e.guards:
@@ -96,6 +113,9 @@ def run(chk):
                 unselected.append((e, m))
                 continue
             Ts["R2H" if when_R else "H2R"] = m
+    chk.ob("R13.1", CR, q, "the basis-change matrices are the same on every call: a matrix kept at module level is not updated in place",
+           not shared_written, node=shared_written[0][0].node if shared_written else None, fingerprint="matrices-constant",
+           expected="T = CONSTANT / 3 (a new array)", found=[f"in-place update of {nm}" for _, nm in shared_written])
     if len(unselected) == 2 and not Ts:
         # two matrices, chosen by something other than the space group's current setting: the direction of the change is decided by the setting
         # the crystal IS in (the same attribute the early return and the relabelling use), not by a property of the cell metric
